@@ -28,7 +28,7 @@ CHECKS = {
         "assumptions": ["delegate executor and completion of its futures are environment (scripted Manual executor)"],
     },
     "C05": {
-        "extra_props": ["Props/C05_machine.v", "Props/C05_src.v"],
+        "extra_props": ["Props/C05_machine.v", "Props/C05_src.v", "Props/C05_ir.v"],
         "module": "p_c05",
         "gen_lemmas": ["sleep_time_spec", "should_retry_spec", "exception_policy_runs", "get_next_job_spec"],
         "rule": "seeded random scenarios (1-3 submissions from 1-2 client threads, outcome scripts per attempt, "
@@ -50,7 +50,7 @@ CHECKS = {
         "assumptions": ["delegate executor, callable outcomes, policy answers and the clock are environment"],
     },
     "C13": {
-        "extra_props": ["Props/MapFut_D.v", "Props/C13_src.v"],
+        "extra_props": ["Props/MapFut_D.v", "Props/C13_src.v", "Props/C13_ir.v"],
         "modules": ["p_c13", "p_c13x"],
         "gen_lemmas": [],
         "rule": "p_c13x: linear chains of 1-3 map / flat_map stages (f_* form or executor form) over one input that is a plain future or an f_proxy / f_nocancel / f_map of it, "
@@ -195,7 +195,7 @@ CHECKS = {
         "assumptions": ["PARTIAL: GC/finalisation timing is CPython's; the worker-loop protocol is proved on Model/Refs.v, which is in lockstep with the four loops (drop scenarios); reference retention of finished work is decided by weakref probes"],
     },
     "C02": {
-        "extra_props": ["Props/Comb_F.v", "Props/MapFut_D.v", "Props/C02_src.v", "Props/C02_machines.v"],
+        "extra_props": ["Props/Comb_F.v", "Props/MapFut_D.v", "Props/C02_src.v", "Props/C02_machines.v", "Props/C02_ir.v"],
         "modules": ["p_c02m", "p_c02c", "p_c02p", "p_c02x", "p_c02t", "p_c02r"],
         "rule": "p_c02t / p_c02r: the Throttle and Retry lockstep families (cancel() of queued / in-flight futures racing with hand-over and completion) with their protocol verdicts; p_c02x: random expression trees (depth <= 3) over f_map / f_flat_map / f_proxy / f_nocancel / f_timeout / f_zip / f_or / f_and on 1-4 environment futures completed with values or exceptions in any order (monitor only: root done, outcome allowed by the tree's sequential meaning, waiters released); p_c02p: the C08 scenario family on PollExecutor plus 1-3 user done-callbacks per poll future (monitor only); library futures: the C13 scenario family (MapFuture/FlatMapFuture over environment futures; done-callbacks that may raise, "
                 "added before/after completion; 0-2 cancels) plus 0-3 threads blocked in result()/exception()/wait()/as_completed() with a "
@@ -206,7 +206,7 @@ CHECKS = {
         "assumptions": ["poll / throttle / timeout futures: the protocol clauses (terminal once, cancel() bool semantics and never raising, cancelled futures notified, user callbacks of the timeout futures exactly once per registration) are PROVED on their machines (Props/C02_machines.v), which are tied to the code by the lockstep families of C07 / C08 / C09 and p_c02t; user done-callbacks on poll / throttle futures are not in those machines (monitor p_c02p only); retry futures are covered by the Retry machine's protocol events"],
     },
     "C09": {
-        "extra_props": ["Props/C09_src.v"],
+        "extra_props": ["Props/C09_src.v", "Props/C09_ir.v"],
         "modules": ["p_c09", "p_c09f"],
         "gen_lemmas": ["partition_jobs_spec", "partition_overdue", "partition_pending", "partition_complete",
                        "wait_time_spec", "wait_time_le", "deadline_of_spec"],
